@@ -581,7 +581,7 @@ func concurrentReaders(r *RunCtx) {
 	if sim.switches > nt {
 		r.NonTrivial = true
 	}
-	r.state(hashString(string(sim.schedTrace)))
+	r.sched(sim)
 	// oracles
 	for t, tk := range sim.tasks {
 		if tk.panicV != nil {
